@@ -31,6 +31,8 @@ def _collect(exprs):
                 apps[i] = e
             if k == z3.Z3_OP_TO_REAL or (z3.is_const(e) and z3.is_int(e) and not z3.is_int_value(e)):
                 has_int[0] = True
+            if z3.is_fp(e):
+                has_int[0] = True  # IEEE terms: default solver (bit-blasting), never nlsat
 
     for e in exprs:
         walk(e)
@@ -317,6 +319,9 @@ class ModelView:
 
     def value(self, expr):
         """float value of an (un-abstracted) term under the model"""
+        if z3.is_fp(expr):
+            from .fp import fp_model_value
+            return fp_model_value(self.model, expr)
         return z3num_to_float(self.model.eval(self.ab(expr), model_completion=True))
 
     def uf_table(self, name):
